@@ -32,6 +32,17 @@ ROLES = ["anonymous", "user", "media", "admin"]
 RANK = {r: i for i, r in enumerate(ROLES)}
 CREDS = {"user": appboot.USER, "media": appboot.MEDIA, "admin": appboot.ADMIN}
 VICTIM = ("c15victim", "v1ctim-pw")
+# Accounts of the USER group only whose stored names contain what is special to lookup machinery other than
+# exact equality: LIKE wildcards, other case, surrounding spaces, prefixes / extensions of privileged names,
+# numeric-looking names (primary keys), a name of maximal length.  They are created AFTER admin/media/user,
+# so any fuzzy lookup that takes the first match resolves them to a more privileged row.
+SHADOW_NAMES = ["ad_in", "a%", "%", "_____", "Admin", "ADMIN", "admin ", " admin", "adm", "admin2",
+                "Media", "me_ia", "medi%", "MEDIA ", "1", "3", "0", "admin" + "x" * 27, "User", "us%"]
+SHADOWS = {f"s{i}": n for i, n in enumerate(SHADOW_NAMES)}
+
+
+def shadow_password(sid: str) -> str:
+    return f"shadow-pw-{sid}"
 EXCLUDED_TABLES = {"Token"}
 EXCLUDED_COLUMNS = {("User", "last_login")}
 
@@ -60,7 +71,9 @@ class World:
         self.upload_folder = Path(self.app.config["UPLOAD_FOLDER"])
         self.ids: dict[str, object] = {}
         self._build_objects()
-        self.sessions = {r: self._login(r) for r in ROLES}
+        self.creds = dict(CREDS)
+        self.creds.update({sid: (name, shadow_password(sid)) for sid, name in SHADOWS.items()})
+        self.sessions = {r: self._login(r) for r in ROLES + list(SHADOWS)}
         with self.app.app_context():
             self.models.db.session.remove()
             rc = self.models.db.engine.raw_connection()
@@ -105,6 +118,14 @@ class World:
             for name, pw in list(CREDS.values()) + [VICTIM]:
                 u = victim if name == VICTIM[0] else m.User.get(username=name)
                 u.password = cheap.hash(pw)
+            m.db.session.flush()
+            shadow_rows = {}
+            for sid, name in SHADOWS.items():
+                su = m.User(username=name, email=f"shadow-{sid}@dashlive.unit.test",
+                            password=cheap.hash(shadow_password(sid)), groups_mask=m.Group.USER,
+                            must_change=False)
+                m.db.session.add(su)
+                shadow_rows[sid] = su
             mps = m.MultiPeriodStream(name="c15mps", title="C15 multi-period stream")
             m.db.session.add(mps)
             period = m.Period(pid="p1", parent=mps, ordering=1, stream=bbb,
@@ -121,6 +142,9 @@ class World:
                 "bbb_video": vid.name,
                 "users": {n: m.User.get(username=c[0]).pk for n, c in CREDS.items()},
             }
+            self.ids["users"].update({sid: su.pk for sid, su in shadow_rows.items()})
+            self.ids["all_accounts"] = [(u.pk, u.username) for u in
+                                        sorted(m.User.all(), key=lambda x: x.pk)]
             m.db.session.remove()
 
     def _login(self, role: str) -> Session:
@@ -133,7 +157,7 @@ class World:
             s.pk = self.ids["guest"]
             s.sources["access"] = "GET /api/refresh/access (guest access token)"
         else:
-            r = self.a.login(c, CREDS[role])
+            r = self.a.login(c, self.creds[role])
             assert r.status_code == 200 and r.json.get("success"), (role, r.status_code, r.text[:200])
             s.access = r.json["accessToken"]["jwt"]
             s.refresh = r.json["refreshToken"]["jwt"]
